@@ -955,6 +955,7 @@ func (m *Model) stepAuth(st *MState, c *pgwire.FMsg) []Branch {
 		n.Phase = "closed"
 		return one(Branch{Exp: []Exp{expErrorCode("28", "", "invalid password")}, Ev: ev, Next: n, End: true})
 	}
+	// "fail" and "failtrue": the validator returned an error
 	n.Phase = "closed"
 	eopt := Exp{T: 'E', Opt: true, Desc: "ErrorResponse(validator failed)"}
 	return one(Branch{Exp: []Exp{eopt}, Ev: ev, Next: n, End: true})
